@@ -82,6 +82,13 @@ def _worker(args):
                         first.append(dict(call=desc, violations=[list(v) for v in viol]))
             out['domain'] = dict(evaluated=n, violating=nviol, first=first,
                                  wall_s=round(__import__('time').time() - t1, 2))
+          except LookupError as e:
+            if type(e).__name__ != 'SegmentNotFound':
+                out['domain_error'] = f'{type(e).__name__}: {e}\n{traceback.format_exc()[-1500:]}'
+            else:
+                # the bounded domain executes a segment of the function; its boundary statement is gone from the
+                # (changed) source: no executable contract for this function in this run (reported, not a failure)
+                out['domain_note'] = str(e)
           except Exception as e:
             out['domain_error'] = f'{type(e).__name__}: {e}\n{traceback.format_exc()[-1500:]}'
     except Exception as e:
